@@ -162,12 +162,13 @@ def gen_series(r, tier='quick', **force):
         for f in files:
             f['bits'] = r.choice([12, 16])
     meta_mode = 'default'
-    if not signed and bits == 16 and not bits_mix and r.random() < 0.3:
-        # unsigned 16-bit data using the upper half of the range in some files only
+    if not signed and bits == 16 and not bits_mix and r.random() < (0.5 if force.get('meta_modes') else 0.25):
+        # unsigned 16-bit data using the upper half of the range in some files only (never in the
+        # file at the grid origin, so that dark and bright files coexist whenever there are two)
         for f in files:
-            if r.random() < 0.5:
+            if (f['s'] + f['t'] + f['v']) % 2 == 1:
                 f['bright'] = 40000
-        if force.get('meta_modes') and r.random() < 0.6:
+        if force.get('meta_modes') and r.random() < 0.8:
             # what `dcmstack` without --embed-meta passes to add_dcm (only for conversions that do
             # not embed: the minimal extractor's raw pydicom values are not meant for the extension)
             meta_mode = 'minimal'
